@@ -508,3 +508,56 @@ func perms(n int) [][]int {
 	sort.Slice(out, func(i, j int) bool { return fmt.Sprint(out[i]) < fmt.Sprint(out[j]) })
 	return out
 }
+
+// mayMatch is a cheap over-approximation of the checker's "can this pattern ever match a value of
+// the static type" test, used to keep obviously impossible typed switches out of the instance.
+func mayMatch(p M, ty []string) bool {
+	has := func(a string) bool {
+		for _, t := range ty {
+			if t == a || t == "any" {
+				return true
+			}
+		}
+		return false
+	}
+	kindAtom := map[string]string{"nil": "nil", "bool": "Bool", "int": "Int", "float": "Float", "str": "String", "sym": "Symbol", "char": "Char"}
+	switch p["k"] {
+	case "lit":
+		return has(kindAtom[p["v"].(M)["k"].(string)])
+	case "eq":
+		if p["op"] == "!=" {
+			return has(kindAtom[p["v"].(M)["k"].(string)])
+		}
+		return has(kindAtom[p["v"].(M)["k"].(string)])
+	case "rel":
+		return has(kindAtom[p["v"].(M)["k"].(string)])
+	case "range":
+		return has("Int")
+	case "bind", "wild", "must":
+		return true
+	case "type":
+		c := p["c"].(string)
+		if c == "Nil" {
+			return has("nil")
+		}
+		if c == "P" {
+			return has("P") || has("Q")
+		}
+		return has(c)
+	case "obj":
+		c := p["c"].(string)
+		if !(has(c) || (c == "P" && has("Q"))) {
+			return false
+		}
+		return true
+	case "as":
+		return mayMatch(p["p"].(M), ty)
+	case "nilable":
+		return mayMatch(p["p"].(M), ty) && has("nil")
+	case "or":
+		return mayMatch(p["l"].(M), ty) && mayMatch(p["r"].(M), ty)
+	case "and":
+		return mayMatch(p["l"].(M), ty) && mayMatch(p["r"].(M), ty)
+	}
+	return false // collection patterns: none of the typed scrutinees is a collection
+}
